@@ -130,7 +130,10 @@ def nested_quantifier_hazards(seq, path=""):
                                                                     and len(_alternatives([x])[0]) == 1
                                                                     and _unbounded(*_alternatives([x])[0][0]))]
                     rest = [x for x in core if x not in inner]
-                    if inner and not guards and _nullable(rest):
+                    # (a look-ahead placed after the inner repeat does not disambiguate the split of a run: X+(?!y) inside an
+                    # outer repeat is as ambiguous as X+; a guard in front of a single character -- the tempered dot -- has no
+                    # inner repeat and is not concerned)
+                    if inner and _nullable(rest):
                         out.append(("unbounded repeat over an alternative that is itself an unbounded repeat", (op, av), inner[0]))
             out += nested_quantifier_hazards(av[2], here)
         elif n == "SUBPATTERN":
